@@ -31,30 +31,60 @@ def mkTx (seq coding orfStart orfEnd startNF endNF sec : String) : TxIn :=
 
 def pepsOut (ps : List Pep) : String := joinWith "," (sortDedupStr (ps.map String.ofList))
 
-def handle (args : List String) : String :=
+/-- a stored case (`set` op) for the many `w` (witness) queries of one real run -/
+structure SCase where
+  g : Cfg
+  t : TxIn
+  vs : List Var
+
+def handle (st : Option SCase) (args : List String) : Option SCase × String :=
   match args with
   | ["cv", seq, coding, orfStart, orfEnd, startNF, endNF, sec, vars,
       rule, exc, misc, minMw, minLen, maxLen, sect, w2f, canon] =>
     match mkCfg rule exc misc minMw minLen maxLen sect w2f canon with
-    | none => "bad-rule"
+    | none => (st, "bad-rule")
     | some g =>
       let t := mkTx seq coding orfStart orfEnd startNF endNF sec
       let vs := (splitList vars ';').filterMap parseVar
-      pepsOut (callVariant g t vs)
+      (st, pepsOut (callVariant g t vs))
   | ["ref", seq, coding, orfStart, orfEnd, startNF, endNF, sec,
       rule, exc, misc, minMw, minLen, maxLen, sect, w2f] =>
     match mkCfg rule exc misc minMw minLen maxLen sect w2f "" with
-    | none => "bad-rule"
-    | some g => pepsOut (referencePeptides g (mkTx seq coding orfStart orfEnd startNF endNF sec))
-  | ["witness", seq, coding, orfStart, orfEnd, startNF, endNF, sec, vars,
-      rule, exc, misc, minMw, minLen, maxLen, sect, w2f, ids, pep] =>
-    match mkCfg rule exc misc minMw minLen maxLen sect w2f "" with
-    | none => "bad-rule"
+    | none => (st, "bad-rule")
+    | some g => (st, pepsOut (referencePeptides g (mkTx seq coding orfStart orfEnd startNF endNF sec)))
+  | ["set", seq, coding, orfStart, orfEnd, startNF, endNF, sec, vars,
+      rule, exc, misc, minMw, minLen, maxLen] =>
+    match mkCfg rule exc misc minMw minLen maxLen "0" "0" "" with
+    | none => (st, "bad-rule")
     | some g =>
-      let t := mkTx seq coding orfStart orfEnd startNF endNF sec
-      let vs := (splitList vars ';').filterMap parseVar
-      if witness g t vs ((splitList ids ',').map String.toNat!) pep.toList then "yes" else "no"
-  | ["translate", seq] => String.ofList (translate seq.toList)
-  | _ => "bad-op"
+      (some ⟨g, mkTx seq coding orfStart orfEnd startNF endNF sec,
+             (splitList vars ';').filterMap parseVar⟩, "ok")
+  | ["w", sect, w2f, ids, pep] =>
+    match st with
+    | none => (st, "no-case")
+    | some c =>
+      let g := { c.g with sect := parseBool sect, w2f := parseBool w2f }
+      (st, if witness g c.t c.vs ((splitList ids ',').map String.toNat!) pep.toList
+           then "yes" else "no")
+  | ["wsup", sect, w2f, ids, pep] =>
+    match st with
+    | none => (st, "no-case")
+    | some c =>
+      let g := { c.g with sect := parseBool sect, w2f := parseBool w2f }
+      (st, match witnessCompletion g c.t c.vs ((splitList ids ',').map String.toNat!) pep.toList with
+           | none => "none"
+           | some e => "extra:" ++ natList e)
+  | ["novelorf", seq, rule, exc, misc, minMw, minLen, maxLen, w2f, canon] =>
+    match mkCfg rule exc misc minMw minLen maxLen "0" w2f canon with
+    | none => (st, "bad-rule")
+    | some g => (st, pepsOut (novelOrfPeptides g seq.toList))
+  | ["alttrans", seq, orfStart, orfEnd, startNF, endNF, sec,
+      rule, exc, misc, minMw, minLen, maxLen, sect, w2f, canon] =>
+    match mkCfg rule exc misc minMw minLen maxLen sect w2f canon with
+    | none => (st, "bad-rule")
+    | some g =>
+      (st, pepsOut (altTranslationPeptides g (mkTx seq "1" orfStart orfEnd startNF endNF sec)))
+  | ["translate", seq] => (st, String.ofList (translate seq.toList))
+  | _ => (st, "bad-op")
 
 end MoPepGen.Driver.S
